@@ -13,6 +13,7 @@
  *                             dir/<type>.<name>.err holds the h_errno value to fail with; no file = HOST_NOT_FOUND (no packet leaves the box)
  *   VSHIM_SWAPOPEN=key|substr|src  right after the first successful open() of a path containing `substr` the file `src` is renamed over
  *                             that path - what another process could do between this program's open() and its next system call
+ *   VSHIM_FORKDELAY=key:ms    the parent side of every fork() of program `key` sleeps ms milliseconds before it returns
  *   VSHIM_PAUSE=key|substr|n  (driven programs only) just before the n-th open() of a path containing `substr` the process reports
  *                             "P <path>" on its control socket and waits for a byte from the driver; signals sent meanwhile run their
  *                             handlers at that instant (a breakpoint inside the daemon's work, e.g. in the middle of reread())
@@ -860,6 +861,12 @@ pid_t fork(void)
     if (gatepath) { if (gatefd >= 0) { REAL(close); real_close(gatefd); gatefd = -1; } gate("REQ", "forked", "-"); } }
   else {
     tr("fork\t%d", (int)r);
+    { /* VSHIM_FORKDELAY=key:ms  the parent is held up right after fork() - the child may run, finish and raise SIGCHLD before the parent has
+         noted its pid (a legal schedule on any loaded machine) */
+      const char *fd_ = getenv("VSHIM_FORKDELAY"); const char *c = fd_ ? strrchr(fd_, ':') : 0;
+      if (c && r > 0) { char k[128]; snprintf(k, sizeof k, "%.*s", (int)(c - fd_), fd_);
+        if (keymatch(k)) { struct timespec ts; long ms = atol(c + 1); ts.tv_sec = ms / 1000; ts.tv_nsec = (ms % 1000) * 1000000L; nanosleep(&ts, &ts); nanosleep(&ts, 0); } }
+    }
     if (gatepath && r > 0 && !in_shim) {   /* the child counts as running until it reports to the scheduler itself */
       char b[128]; int n; REAL(write);
       in_shim++;
